@@ -574,7 +574,8 @@ class HTMLBinaryInputStream(HTMLUnicodeInputStream):
         seek = 3
         if not encoding:
             # Need to detect UTF-32 before UTF-16
-            encoding = bomDict.get(string)         # UTF-32
+            if len(string) == 4:
+                encoding = bomDict.get(string)     # UTF-32
             seek = 4
             if not encoding:
                 encoding = bomDict.get(string[:2])  # UTF-16
